@@ -45,6 +45,7 @@ type Checker struct {
 	Bank     uint64 // bank prefix used by this tier (0: whole bank)
 
 	agg   *Agg
+	minBudgetEnd time.Time
 	viols []Violation
 	notes []string
 	mach  []string
